@@ -2,7 +2,8 @@
 # Regression of the machinery against the seeded changes: apply each seeded/<id>/patch.diff to /repo, run the checks that
 # meta.json says catch it (development mode: --no-lean, the Lean side does not depend on these files unless a translator
 # reads them — pass LEAN=1 to include the gate), expect exit 1, and undo the change straight afterwards.
-# usage: tools/seeded_matrix.sh [seed-dir-name ...]      (never run concurrently with registered checks)
+# usage: [SEEDS="1 2 3"] [BARTIQ_REPO=<scratch worktree>] tools/seeded_matrix.sh [seed-dir-name ...]
+#        (with the default /repo: never run concurrently with registered checks)
 cd "$(dirname "$0")/.."
 REPO=${BARTIQ_REPO:-/repo}
 [ -n "$(git -C $REPO status --porcelain)" ] && { echo "working tree of $REPO not clean"; exit 2; }
@@ -14,10 +15,12 @@ for s in "${sel[@]}"; do
   git -C $REPO apply $PWD/$d/patch.diff
   checks=$(python3 -c "import json;print(' '.join(json.load(open('$d/meta.json'))['caught_by_checks']))")
   for c in $checks; do
-    if [ -n "$LEAN" ]; then out=$(VERIF_SEED=${VERIF_SEED:-1} ./check $c 2>&1); else out=$(VERIF_SEED=${VERIF_SEED:-1} ./check $c --no-lean 2>&1); fi
+   for sd in ${SEEDS:-${VERIF_SEED:-1}}; do
+    if [ -n "$LEAN" ]; then out=$(VERIF_SEED=$sd ./check $c 2>&1); else out=$(VERIF_SEED=$sd ./check $c --no-lean 2>&1); fi
     rc=$?
-    if [ $rc -eq 1 ] && echo "$out" | grep -q "^VIOLATION property=$c"; then echo "$s: caught by $c :: $(echo "$out" | grep '^VIOLATION' | head -1)"
-    else echo "$s: MISSED by $c (exit $rc) :: $(echo "$out" | tail -1)"; miss=$((miss+1)); fi
+    if [ $rc -eq 1 ] && echo "$out" | grep -q "^VIOLATION property=$c"; then echo "$s: caught by $c seed=$sd :: $(echo "$out" | grep '^VIOLATION' | head -1)"
+    else echo "$s: MISSED by $c seed=$sd (exit $rc) :: $(echo "$out" | tail -1)"; miss=$((miss+1)); fi
+   done
   done
   git -C $REPO checkout -- . ; git -C $REPO clean -fdq src tests 2>/dev/null
 done
